@@ -12,6 +12,8 @@
 #include <unistd.h>
 
 #include "vh.h"
+
+#include <fcntl.h>
 #include "simk.h"
 
 #include "events.h"
@@ -890,6 +892,9 @@ on_busy(void)
 	_exit(3);
 }
 
+static int fd0dummy = -1;
+static uint64_t st_fd0_free;
+
 int
 main(int argc, char ** argv)
 {
@@ -901,6 +906,7 @@ main(int argc, char ** argv)
 	first = strtoull(argv[2], NULL, 0);
 	count = strtoull(argv[3], NULL, 0);
 	vh_stdout_linebuf();
+	close(0);
 	simk_busy_limit = 1000000;
 	simk_on_busy = on_busy;
 	for (i = first; i < first + count; i++) {
@@ -908,6 +914,21 @@ main(int argc, char ** argv)
 
 		vh_seed(&R, seed, i);
 		simk_reset(seed * 977 + i);
+		/*
+		 * Descriptor 0 was given up at start-up (a process may run with
+		 * stdin closed): in one case of four it is free, so the first
+		 * descriptor the case creates - a connection, an accepted or a
+		 * listening socket - is number 0; otherwise it is occupied.
+		 */
+		if (fd0dummy == 0) {
+			close(0);
+			fd0dummy = -1;
+		}
+		if (((seed ^ i) >> 3) % 4 != 0) {
+			if ((fd0dummy = open("/dev/null", O_RDONLY)) != 0)
+				vh_die("descriptor 0 was not free (got %d)", fd0dummy);
+		} else
+			st_fd0_free++;
 		casesig = 0;
 		printf("CASE %llu\n", (unsigned long long)i);
 		kind = (int)vh_below(&R, 10);
@@ -940,5 +961,6 @@ main(int argc, char ** argv)
 	printf("STAT polls %llu\nSTAT recv_calls %llu\nSTAT send_calls %llu\nSTAT connect_calls %llu\nSTAT accept_calls %llu\n",
 	    (unsigned long long)simk_npoll, (unsigned long long)simk_nrecv, (unsigned long long)simk_nsend,
 	    (unsigned long long)simk_nconnect, (unsigned long long)simk_naccept);
+	printf("STAT cases_with_descriptor_0_free %llu\n", (unsigned long long)st_fd0_free);
 	return (0);
 }
